@@ -456,7 +456,10 @@ class TrueHistory(Oracle):
         fails = []
         self.checks += 1
         r = ctx.live.ask("heads %s" % hx(oid))
-        n = int(re.search(r"main=v0*(\d+)", r).group(1))
+        mm = re.search(r"main=v0*(\d+)", r)
+        if not mm:
+            return ["after a successful `%s` the object cannot be opened: %s" % (st["op"], r[:160])]
+        n = int(mm.group(1))
         states, lastup = {}, {}
         for k in range(1, n + 1):
             v = jbody(ctx.live.ask("ver %s v%d" % (hx(oid), k)))
